@@ -679,6 +679,11 @@ impl Game {
         if self.is_endgame() {
             self.piece_scores[PieceType::King as usize].set(&scores::KING_SCORES_END);
             self.phase = GamePhase::Endgame;
+            // The cached king scores were computed with the previous table
+            for player in [Player::White, Player::Black] {
+                let position = self.get_king_position(player);
+                self.set_position(position, self.get_position(position));
+            }
         }
     }
 
